@@ -561,6 +561,50 @@ def loop_must_call(f, call_block):
     return None
 
 
+def exact_count_definition(run, R="MATCH"):
+    """the priority key `exact_part_count` of a rule is the number of its Exact pattern parts: a counter that starts at 0 and
+    is incremented by 1 only in the Exact arm of the pattern-part match (blanks and parameters do not count)"""
+    f = run.anchor(R, "asm::defs::ruledef::resolve_rule")
+    if f is None:
+        return
+    ok, why = False, "no Rule aggregate with an exact_part_count field"
+    for bi, si, st in f.stmts():
+        if st["k"] == "assign" and st["rv"]["k"] == "agg" and str(st["rv"].get("adt", "")).endswith("ruledef::Rule") and "exact_part_count" in (st["rv"].get("fields") or []):
+            op = st["rv"]["ops"][st["rv"]["fields"].index("exact_part_count")]
+            l = op_local(op)
+            root = f.copy_root(l) if l is not None else None
+            ds = f.full_defs(root) if root is not None else []
+            arms = None
+            for b, a, oth, pl, vs in T.enum_switch_arms(f, "AstRulePatternPart"):
+                if "Exact" in a:
+                    arms = (b, a)
+            inits = [d for d in ds if d[0] == "stmt" and d[3]["rv"]["k"] == "use" and const_int(d[3]["rv"]["op"]) == 0]
+            incs = []
+            other = []
+            for d in ds:
+                if d in inits:
+                    continue
+                o = f.origin_local(root) if False else None
+                if d[0] == "stmt" and d[3]["rv"]["k"] == "use":
+                    src = peel(f.origin_op(d[3]["rv"]["op"]))
+                    if src and src[0] == "place" and src[1][0] == "binop":
+                        src = src[1]
+                    if src and src[0] == "binop" and src[1]["op"].startswith("Add") and const_int(src[1]["r"]) == 1 and op_local(src[1]["l"]) is not None and f.copy_root(op_local(src[1]["l"])) == root:
+                        incs.append(d)
+                        continue
+                other.append(d)
+            if arms is None:
+                why = "the match on the pattern part kind was not found"
+            elif len(inits) != 1 or not incs or other:
+                why = "the value stored is not a counter that starts at 0 and is only incremented by 1 (%d init, %d increment(s), %d other definition(s))" % (len(inits), len(incs), len(other))
+            else:
+                reg = T.dominated_region(f, arms[1]["Exact"], arms[0])
+                ok = all(d[1] in reg for d in incs)
+                why = "the counter is incremented outside the Exact arm of the pattern-part match"
+    run.check(ok, R, R + "|exact-count", f.loc(), "exact_part_count counts the Exact pattern parts only",
+              "resolve_rule: %s: a rule written with more blanks (or more parameters) would out-rank a rule that spells the operand literally" % why)
+
+
 def candidates_all_matched(run, R="TAB-idx"):
     """both candidate loops (index path and full scan) hand every candidate to begin_match_with_rule and keep every result:
     the index path may filter by the prefix index only"""
@@ -724,6 +768,33 @@ def sk_provider(run):
         for w in sorted(writers):
             run.check(w in fns, R, "SK|flag-writer|%s|%s" % (fld, w), prog.fn(w).loc(), "%s sets %s (audited)" % (w, fld),
                       "%s sets `%s` but is not an audited writer: the flag must come from the static analysis of the item's expression" % (w, fld))
+
+
+def sk_instruction_flag(run, R="SK"):
+    """match_all: an instruction is `statically known` only when EVERY candidate match is: the flag stored on the instruction
+    is `matches.iter().all(|m| m.encoding_statically_known)` (a candidate that is not the largest can still be the one that
+    wins once addresses are known)"""
+    from rules_sym import deep
+    from mir import closure_of_origin
+    f = run.anchor(R, "asm::matcher::match_all")
+    if f is None:
+        return
+    n, bad = 0, []
+    for bi, si, st in f.stmts():
+        if st["k"] == "assign" and st["place"]["p"] and isinstance(st["place"]["p"][-1], dict) and st["place"]["p"][-1].get("name") == "encoding_statically_known" \
+                and "Instruction" in str(f.local_ty(st["place"]["l"])) and "InstructionMatch" not in str(f.local_ty(st["place"]["l"])):
+            n += 1
+            o = peel(f.origin_op(st["rv"]["op"])) if st["rv"]["k"] == "use" else None
+            good = False
+            if o and o[0] == "call" and (o[1].get("callee") or "").endswith("Iterator::all"):
+                d = deep(f, o[1]["args"][0], 6)
+                cid = closure_of_origin(f.origin_op(o[1]["args"][1]))
+                g = f.prog.fn(cid) if cid else None
+                good = d.endswith(".matches)") and g is not None and deep(g, {"copy": {"l": 0, "p": []}}, 4) == "P2.encoding_statically_known"
+            if not good:
+                bad.append(deep(f, st["rv"]["op"], 4)[:120] if st["rv"]["k"] == "use" else st["rv"]["k"])
+    run.check(n >= 1 and not bad, R, "SK|instruction-flag|all-candidates", f.loc(), "an instruction is statically known only when all of its candidate matches are (%d store(s))" % n,
+              "match_all stores `%s` as the instruction's statically-known flag, not `all candidates are statically known`: the instruction would be frozen after the first pass although another candidate may win later" % (bad or "nothing"))
 
 
 def sk_match_locals(run, R="SK"):
